@@ -59,7 +59,7 @@ func c12(r *engine.Report, p *engine.Program) {
 			r.Check("R1-error-flow", fmt.Sprintf("%s: error of %s", engine.FuncName(fn), callee), call.Pos(), okp, why, why)
 		}
 	}
-	r.Min("R1-error-flow", 9)
+	r.Min("R1-error-flow", 6)
 	// R1b a nil CompareFunc with nil error only when the pattern is empty
 	{
 		pat := buildComp.Params[1]
@@ -89,8 +89,10 @@ func c12(r *engine.Report, p *engine.Program) {
 	reKeys, reTrue, _ := stringSwitchConsts(reCmp)
 	var compFields []string
 	for _, ci := range callsTo(buildComps, "netceptor.buildComp") {
-		if s, ok := engine.ConstString(ci.Common().Args[0]); ok {
-			compFields = append(compFields, s)
+		for _, row := range argRows(ci) {
+			if s, ok := engine.ConstString(row[0]); ok {
+				compFields = append(compFields, s)
+			}
 		}
 	}
 	sortStrings(compFields)
@@ -381,9 +383,11 @@ func checkKeyFieldWiring(r *engine.Report, p *engine.Program, parseRule, buildCo
 	// BuildComps side
 	got2 := map[string]string{}
 	for _, ci := range callsTo(buildComps, "netceptor.buildComp") {
-		name, _ := engine.ConstString(ci.Common().Args[0])
-		if f, _ := engine.FieldOfLoad(ci.Common().Args[1]); f != nil {
-			got2[name] = f.Name()
+		for _, row := range argRows(ci) {
+			name, _ := engine.ConstString(row[0])
+			if f, _ := engine.FieldOfLoad(row[1]); f != nil {
+				got2[name] = f.Name()
+			}
 		}
 	}
 	ok2 := len(got2) == 4
